@@ -103,6 +103,23 @@ def handle (op : String) (a : List String) : Option String :=
       | "setbytes" => enc (Ed25519.leNat x % 2 ^ 255) 0
       | _ => some "-"
     | _, _, _, _ => none
+  -- point operations of the internal package on encodings: the RFC 8032 reference
+  | "c14.pt", [op, a, b] =>
+    match parseV a, parseV b with
+    | some a, some b =>
+      let needB := op = "add" ∨ op = "sub" ∨ op = "equal"
+      match Ed25519.Point.decode a, (if needB then Ed25519.Point.decode b else some Ed25519.Point.zero) with
+      | some P, some Q =>
+        match op with
+        | "add" => some ("ok " ++ hxv (P.add Q).encode)
+        | "sub" => some ("ok " ++ hxv (P.add Q.neg).encode)
+        | "neg" => some ("ok " ++ hxv P.neg.encode)
+        | "double" => some ("ok " ++ hxv (P.add P).encode)
+        | "recode" => some ("ok " ++ hxv P.encode)
+        | "equal" => some ("ok " ++ (if P.encode = Q.encode then "01" else "00"))
+        | _ => none
+      | _, _ => some "undecodable"
+    | _, _ => none
   | "c14.key", [seed] => (parseV seed).map fun seed => "ok " ++ hxv (Ed25519.newKeyFromSeed sha512 seed)
   | "c14.sign", [seed, msg] =>
     match parseV seed, parseV msg with
